@@ -211,6 +211,11 @@ def rule_call_contexts(chk, P, rid, select=None, floor=1000):
                 if tjs in have:
                     r.ok(ik)
                     continue
+                # the same routine reached under these conditions and further ones (a local made explicit, an extra early return) is still
+                # reached under these conditions; a dropped conjunct or a moved boundary is not a superset
+                if any(json.loads(x)[0] == callee and set(atoms) <= set(json.loads(x)[2]) for x in have):
+                    r.ok(ik, 'under stricter conditions')
+                    continue
                 if (fn, tjs) in reported:
                     r.instances += 1
                     continue
